@@ -7,6 +7,7 @@ import (
 	"crypto/rsa"
 	"crypto/sha256"
 	"encoding/base64"
+	"encoding/hex"
 	"encoding/json"
 	"errors"
 	"strconv"
@@ -267,6 +268,28 @@ func (r *run) cardShapes() {
 		var sig *identity.Signature
 		crash = guard(func() { sig, serr = s.sg.Sign(ctx, "", []byte("blob")) })
 		r.use("card", "Sign; "+s.note, Facts{Genuine: true, InTime: false, Consent: true}, crash == "" && serr == nil && sig != nil, nil, crash)
+	}
+	// what SignToken writes: "when empty, Domain is the issuer / the audience"; the subject is the bare user
+	// when the domain (or the holder itself) is the issuer, else user@domain
+	for _, v := range []struct {
+		note, iss, aud      string
+		wIss, wAud, wantSub string
+	}{
+		{"issuer and audience left empty", "", "", host, host, user},
+		{"audience given", "", "api", host, "api", user},
+		{"self issued", identity.Self, "", identity.Self, host, user},
+		{"self issued for an audience", identity.Self, "api", identity.Self, "api", user + "@" + host},
+		{"foreign issuer", "ca.example", "api", "ca.example", "api", user + "@" + host},
+	} {
+		t2, serr := identity.SignToken(ctx, core, &identity.SignConfig{User: user, Domain: host, Issuer: v.iss, Audience: v.aud,
+			Time: time.Unix(T, 0), Expiry: time.Minute})
+		var got string
+		if _, _, cp := parseSegs([]byte(t2)); cp != nil {
+			un := func(h string) string { b, _ := hex.DecodeString(h); return string(b) }
+			got = "iss=" + un(cp.Iss) + " aud=" + un(cp.Aud) + " sub=" + un(cp.Sub) + " iat=" + cp.Iat + " exp=" + cp.Exp
+		}
+		r.use("card", "SignToken; "+v.note, Facts{Genuine: true, InTime: true, Consent: true}, serr == nil, nil, "",
+			Pair{"claims", got, "iss=" + v.wIss + " aud=" + v.wAud + " sub=" + v.wantSub + " iat=" + z(T) + " exp=" + z(T+60)})
 	}
 	// a card that returns neither an identity nor an error breaks its contract; whatever happens, nothing is accepted
 	var t *jwt.Token
